@@ -121,6 +121,19 @@ def votesUpToDate : Option (Nat × Nat) → List Step → Nat → Option Nat
         | none, _ => known
       votesUpToDate known' rest (k + 1)
 
+/-- C14: a pre-vote, too, is granted only to a candidate whose log is at least as up to date as the
+    server's durable tail (a lagging server must not be encouraged to run elections it cannot win) -/
+def preVotesUpToDate : List Step → Nat → Option Nat
+  | [], _ => none
+  | s :: rest, k =>
+    let bad : Bool :=
+      match s.ev, s.post.resp with
+      | .prevote q, .prevote _ true =>
+          let tl := durableTail s.pre.dur
+          !(upToDate q.lastIdx q.lastTerm tl.1 tl.2)
+      | _, _ => false
+    if bad then some k else preVotesUpToDate rest (k + 1)
+
 /-- a grant goes only to a voting member of the configuration the server has (when it has one and
     the request names its sender) -/
 def votesToVotersOnly : List Step → Nat → Option Nat
